@@ -77,24 +77,34 @@ Definition reimport (e : env) (denoms : list nat) (s : state) : outcome state un
   init_genesis e denoms (bal s) (export_genesis s).
 
 (* operations of the wrapper machine: an ordinary operation, the in-place re-import, and a probe: a
-   (perturbed) genesis on which the implementation's GenesisState.Validate and InitGenesis were run in a
-   discarded context, with their verdicts; a probe leaves the state as it is *)
+   (perturbed) genesis on which the implementation's GenesisState.Validate and InitGenesis (on every
+   probed genesis, also those Validate refuses) were run in a discarded context, with their verdicts;
+   a probe leaves the state as it is *)
+(* [bd]: the bank side of a probe - before InitGenesis ran, the auction module account's balance was
+   changed by these (denom, amount) pairs (coins minted to it / sent away from it on the discarded
+   branch): InitGenesis compares the module account's balance with the genesis auctions' coins *)
+Definition adj_bank (b : bank) (a : nat) (bd : list (nat * Z)) : bank :=
+  fun x d => if Nat.eqb x a
+             then b x d + zsum (map (fun p => if Nat.eqb (fst p) d then snd p else 0) bd)
+             else b x d.
+
 Inductive gop :=
 | GOp (o : op)
 | GReimport
-| GProbe (g : genesis) (valid : bool) (cls : rclass).
+| GProbe (g : genesis) (bd : list (nat * Z)) (valid : bool) (cls : rclass).
 
 Definition gstep (e : env) (denoms : list nat) (s : state) (o : gop) : outcome state unit :=
   match o with
   | GOp o1 => step e s o1
   | GReimport => reimport e denoms s
-  | GProbe _ _ _ => Ok s tt
+  | GProbe _ _ _ _ => Ok s tt
   end.
 
 Definition probe_ok (e : env) (denoms : list nat) (s : state) (o : gop) : bool :=
   match o with
-  | GProbe g valid cls =>
-      Bool.eqb (validate_genesis e g) valid && rclass_eqb (class_of (init_genesis e denoms (bal s) g)) cls
+  | GProbe g bd valid cls =>
+      Bool.eqb (validate_genesis e g) valid
+      && rclass_eqb (class_of (init_genesis e denoms (adj_bank (bal s) (amod e) bd) g)) cls
   | _ => true
   end.
 
